@@ -16,7 +16,10 @@ Inductive chan := ChRyd | ChXY | ChDig | ChBoth
      and non-zero detuning / played with zero amplitude, zero detuning and a phase only.  Pulser counts
      a channel as used when amplitude OR detuning is non-zero: ChRydDet is a three-level sequence,
      ChRydIdle and ChRydPhase are two-level ground-rydberg sequences. *)
-  | ChRydIdle | ChRydDet | ChRydPhase.
+  | ChRydIdle | ChRydDet | ChRydPhase
+  (* mw_global declared, only a delay / zero pulse played: no basis is "used" but pulser's Hamiltonian
+     still is the XY exchange *)
+  | ChXYIdle.
 Inductive effk := EffNone | Eff2 | Eff3.   (* effective-noise operators: none, 2x2, 3x3 *)
 
 Record feat := mkFeat {
@@ -30,7 +33,7 @@ Record feat := mkFeat {
   f_init : bool;          (* an initial state is given *)
 }.
 
-Definition is_xy (f : feat) : bool := match f_chan f with ChXY => true | _ => false end.
+Definition is_xy (f : feat) : bool := match f_chan f with ChXY | ChXYIdle => true | _ => false end.
 Definition dim (f : feat) : Z :=
   (match f_chan f with ChBoth | ChRydDet => 3 | _ => 2 end) + (if f_leak f then 1 else 0).
 (* shapes of the effective noise operators handed to pulser (a leakage model needs a 3x3 one) *)
@@ -80,7 +83,7 @@ Definition supported (b : backend) (f : feat) : bool :=
   match b with
   | SV => (match f_chan f with ChRyd | ChRydIdle | ChRydPhase => true | _ => false end) && negb (f_leak f)
           && (match f_eff f with Eff3 => false | _ => true end)
-  | MPS => (match f_chan f with ChRyd | ChXY | ChRydIdle | ChRydPhase => true | _ => false end)
+  | MPS => (match f_chan f with ChRyd | ChXY | ChXYIdle | ChRydIdle | ChRydPhase => true | _ => false end)
            && forallb (Z.eqb (dim f)) (eff_shapes f)
            && (negb (f_dmrg f) || negb (noise_nonempty f))
   end.
@@ -88,7 +91,7 @@ Definition supported (b : backend) (f : feat) : bool :=
 (* ---- whole-domain enumeration ---------------------------------------------------------------- *)
 Definition all_bool (P : bool -> bool) : bool := P true && P false.
 Definition all_chan (P : chan -> bool) : bool :=
-  P ChRyd && P ChXY && P ChDig && P ChBoth && P ChRydIdle && P ChRydDet && P ChRydPhase.
+  P ChRyd && P ChXY && P ChDig && P ChBoth && P ChRydIdle && P ChRydDet && P ChRydPhase && P ChXYIdle.
 Definition all_eff (P : effk -> bool) : bool := P EffNone && P Eff2 && P Eff3.
 Definition all_backend (P : backend -> bool) : bool := P SV && P MPS.
 Definition all_feat (P : feat -> bool) : bool :=
@@ -96,7 +99,7 @@ Definition all_feat (P : feat -> bool) : bool :=
   all_bool (fun dl => all_eff (fun ef => all_bool (fun pr => all_bool (fun ot => all_bool (fun dm =>
   all_bool (fun it => P (mkFeat c lk rx dp hy dl ef pr ot dm it)))))))))))).
 
-(* every accepted combination is supported — over the whole feature domain (2 x 10752 cases) *)
+(* every accepted combination is supported — over the whole feature domain (2 x 12288 cases) *)
 Definition table_ok : bool :=
   all_backend (fun b => all_feat (fun f => implb (accepts b f) (supported b f))).
 Definition table_ok_for (b : backend) : bool :=
